@@ -34,7 +34,7 @@ TABLE = {
             "4/C14"),
     'C01': ('translation_validation',
             'verified validator (accepts_b: sound, no false rejection) + per-instance kernel-checked certificates over a frozen pool of fragment-F definitions; partial',
-            "PARTIAL: the learner's universal correctness is not proved (it is a heuristic). Proved in Coq: the validator's meaning (accepts_b_spec), invariance of the canonical form under job-graph isomorphism (no job isomorphic to a run is ever rejected), topological order of every run, and that ingestion drops no observed successor/predecessor set (ingest_evidence). Established per run: for every definition of the slice (thorough: all 1200 pool definitions; plus, in every run, the 63 definitions of the repository's end-to-end corpus read with the harness' own parser; complete execution set and a seeded proper subset) the real pv_to_puml_string terminates within the limit, its text parses (parse_sound), and coqc certifies that every input job is accepted by the emitted diagram.",
+            "PARTIAL: the learner's universal correctness is not proved (it is a heuristic). Proved in Coq: the validator's meaning (accepts_b_spec), invariance of the canonical form under job-graph isomorphism (no job isomorphic to a run is ever rejected), topological order of every run, and that ingestion drops no observed successor/predecessor set (ingest_evidence). Established per run: for every definition of the slice (thorough: all 1200 pool definitions; plus, in every run, the 63 definitions of the repository's end-to-end corpus read with the parser of the harness; complete execution set and a seeded proper subset) the real pv_to_puml_string terminates within the limit, its text parses (parse_sound), and coqc certifies that every input job is accepted by the emitted diagram.",
             'Trusted: Coq kernel+vm_compute; the executable semantics V.Puml.Exec (definition of diagram meaning); `canon` equality is coarser than isomorphism (a wrong acceptance is possible, a wrong rejection is not: accepts_iso); python line tokenizer; janus shim; frozen pool harness/pool/F.jsonl (every member certified inF_b on every run). Genuine learner failures inside the pool are listed in known_findings.json by definition id; any other failure is a VIOLATION.',
             '4/C01'),
     'C02': ('translation_validation',
@@ -64,7 +64,7 @@ TABLE = {
             '4/C06'),
     'C07': ('translation_validation',
             'verified graph validators (reachability, acyclicity, single entry, nesting check c07_b sound and complete) + per-instance certificates on the real detect_loops output; partial',
-            'PARTIAL: for the loop-bearing definitions of the pool slice, the corpus' loop cases and a frozen pool L of corpus-like loop shapes (break branches containing loops/forks, two loops after one event) the directly-follows graph is built exactly as pv_to_puml_string does, the real detect_loops is called, and coqc certifies for the returned nesting: every level acyclic and single-entry, every observed event type exactly once in the whole nesting, every edge of the input lying on a cycle enclosed in some loop body. Proved: reach_b_iff, acyclic_b_iff, single_entry_b_iff, c07_b_sound/complete, existence of a topological order for every certified level. detect_loops itself is not modelled.',
+            'PARTIAL: for the loop-bearing definitions of the pool slice, the loop cases of the corpus and a frozen pool L of corpus-like loop shapes (break branches containing loops/forks, two loops after one event) the directly-follows graph is built exactly as pv_to_puml_string does, the real detect_loops is called, and coqc certifies for the returned nesting: every level acyclic and single-entry, every observed event type exactly once in the whole nesting, every edge of the input lying on a cycle enclosed in some loop body. Proved: reach_b_iff, acyclic_b_iff, single_entry_b_iff, c07_b_sound/complete, existence of a topological order for every certified level. detect_loops itself is not modelled.',
             'Trusted: Coq kernel+vm_compute; the executable semantics V.Puml.Exec (definition of diagram meaning); `canon` equality is coarser than isomorphism (a wrong acceptance is possible, a wrong rejection is not: accepts_iso); python line tokenizer; janus shim; frozen pool harness/pool/F.jsonl (every member certified inF_b on every run). Genuine learner failures inside the pool are listed in known_findings.json by definition id; any other failure is a VIOLATION.',
             '4/C07'),
     "C15": ("proof",
